@@ -250,23 +250,59 @@ func SolveWith(solvers []solverSpec, dir, name, script string, timeoutS int, all
 		return SolverResult{Status: "error", Output: err.Error()}
 	}
 	res := SolverResult{Status: "unknown", All: map[string]string{}}
+	type ans struct {
+		sp        solverSpec
+		st, out   string
+		secs      float64
+	}
 	var outs []string
 	total := 0.0
 	decided := false
-	for _, sp := range solvers {
-		st, out, secs := runOne(sp, file, timeoutS)
-		total += secs
-		res.All[sp.name] = st
-		outs = append(outs, "["+sp.name+"] "+firstLines(out, 40))
-		if st == "unsat" || st == "sat" {
+	record := func(a ans) {
+		total += a.secs
+		res.All[a.sp.name] = a.st
+		outs = append(outs, "["+a.sp.name+"] "+firstLines(a.out, 40))
+		if a.st == "unsat" || a.st == "sat" {
 			if !decided {
-				res.Status, res.Solver, res.Output = st, sp.name, out
+				res.Status, res.Solver, res.Output = a.st, a.sp.name, a.out
 				decided = true
-			} else if res.Status != st {
+			} else if res.Status != a.st {
 				res.Status = "error"
 				res.Output = "solver disagreement: " + strings.Join(outs, "\n")
 			}
-			if !all {
+		}
+	}
+	// the two z3 versions race (each is quick where it succeeds and slow to give up where it does not);
+	// cvc5 is consulted only if neither decides, or always in the thorough tier
+	first := solvers
+	var rest []solverSpec
+	if len(solvers) > 2 {
+		first, rest = solvers[:2], solvers[2:]
+	}
+	ch := make(chan ans, len(first))
+	ctx, cancel := context.WithCancel(context.Background())
+	for _, sp := range first {
+		go func(sp solverSpec) {
+			st, out, secs := runOneCtx(ctx, sp, file, timeoutS)
+			ch <- ans{sp, st, out, secs}
+		}(sp)
+	}
+	for range first {
+		a := <-ch
+		if a.st == "cancelled" {
+			continue
+		}
+		record(a)
+		if decided && !all {
+			cancel()
+		}
+	}
+	cancel()
+	if !decided || all {
+		for _, sp := range rest {
+			st, out, secs := runOne(sp, file, timeoutS)
+			record(ans{sp, st, out, secs})
+			if decided && !all {
 				break
 			}
 		}
@@ -276,7 +312,7 @@ func SolveWith(solvers []solverSpec, dir, name, script string, timeoutS int, all
 		res.Output = strings.Join(outs, "\n")
 		res.Status = "error"
 		for _, st := range res.All {
-			if st == "unknown" || st == "unconfirmed-unsat" {
+			if st == "unknown" {
 				res.Status = "unknown"
 			}
 		}
@@ -287,6 +323,37 @@ func SolveWith(solvers []solverSpec, dir, name, script string, timeoutS int, all
 		}
 	}
 	return res
+}
+
+func runOneCtx(parent context.Context, sp solverSpec, file string, timeoutS int) (status, out string, secs float64) {
+	ctx, cancel := context.WithTimeout(parent, time.Duration(timeoutS+2)*time.Second)
+	defer cancel()
+	argv := sp.argv(file, timeoutS)
+	cmd := exec.CommandContext(ctx, argv[0], argv[1:]...)
+	var buf bytes.Buffer
+	cmd.Stdout = &buf
+	cmd.Stderr = &buf
+	t0 := time.Now()
+	_ = cmd.Run()
+	secs = time.Since(t0).Seconds()
+	out = buf.String()
+	if parent.Err() != nil {
+		return "cancelled", out, secs
+	}
+	first := strings.TrimSpace(strings.SplitN(out, "\n", 2)[0])
+	switch first {
+	case "unsat", "sat", "unknown":
+		status = first
+	case "timeout":
+		status = "timeout"
+	default:
+		if ctx.Err() != nil || strings.Contains(out, "timeout") || strings.Contains(out, "interrupted") {
+			status = "timeout"
+		} else {
+			status = "error"
+		}
+	}
+	return
 }
 
 func firstLines(s string, n int) string {
